@@ -120,6 +120,7 @@ pub fn run(rep: &mut Report, backend: Bk, thorough: bool) {
         CommitContent::Relay("wss://evil.example".into()),
         CommitContent::PathWithIdentity("V".into()),
         CommitContent::PathWithIdentity("O".into()),
+        CommitContent::RenameWithIdentity("V".into()),
         CommitContent::PendingByRef,
         CommitContent::Mixed,
     ];
@@ -185,7 +186,7 @@ pub fn run(rep: &mut Report, backend: Bk, thorough: bool) {
                         // OpenMLS always adds an update path to a commit without proposals, so an "empty" commit and a
                         // by-reference commit over an empty queue are path-only self-updates as well
                         let pure_self_update = matches!(content, CommitContent::PathOnlySelfUpdate | CommitContent::Empty) || (matches!(content, CommitContent::PendingByRef) && !queued);
-                        let identity_change = matches!(content, CommitContent::PathWithIdentity(_));
+                        let identity_change = matches!(content, CommitContent::PathWithIdentity(_) | CommitContent::RenameWithIdentity(_));
                         let must_refuse = !sender_is_member || identity_change || (!sender_is_admin && !pure_self_update);
                         let must_accept = sender_is_member && !identity_change && (sender_is_admin || pure_self_update) && *blabel == "idle";
                         let case = format!("recv|{srole}|{content:?}|queued={queued}|{rrole}|{blabel}");
@@ -423,4 +424,61 @@ pub fn run(rep: &mut Report, backend: Bk, thorough: bool) {
     rep.transitions += rep.evaluations;
     rep.sample(json!({"sender": "non-admin M", "commit": "Rename built with the OpenMLS commit builder", "receiver": "Z (non-admin), idle", "expected": "refused, state unchanged"}));
     rep.sample(json!({"admin": "A", "queued": "Remove(V) proposed by non-admin M", "operation": "update_group_data(name)", "expected_delta": "name only"}));
+}
+
+/// A removal leaves an empty leaf in front of a non-admin, and an admin sits further right in the tree (leaf order =
+/// joining order: A admin, X, M, B admin; X is removed). What M commits afterwards is judged by M's leaf, not by
+/// whoever is M's-leaf-index-th among the remaining members. Also the identity of an admin is checked in every
+/// commit that carries an update path, whatever else the commit contains.
+pub fn tree_with_holes(rep: &mut Report, backend: Bk) {
+    let sc = base("c05-holes", &["A", "X", "M", "B", "Z"], &["A", "B"], &["D"], vec![act("A", ActKind::Remove("X".into()), 10).then(vec![])]);
+    let w = match build_world(&sc, backend) {
+        Ok(w) => w,
+        Err(e) => {
+            rep.machinery_errors.push(format!("c05 holes world: {}", e.0));
+            return;
+        }
+    };
+    let pk_of = |n: &str| w.pks_by_name.get(n).and_then(|h| PublicKey::from_hex(h).ok());
+    let rm = w.pool.iter().position(|p| p.label.contains("A.remove0")).unwrap();
+    let now_ts = now();
+    let d_kp: Event = w.initial["D"].key_package_event();
+    let gid = w.gid.clone();
+    let after_removal = |n: &str| -> Client { step(&w, &w.nodes[&vec![]].clients[n].fork(), Action::Deliver(rm)).client };
+    let cases: Vec<(&str, &str, CommitContent, bool)> = vec![
+        ("non-admin-behind-the-hole", "M", CommitContent::Rename("by-m".into()), false),
+        ("non-admin-behind-the-hole", "M", CommitContent::Admins(vec!["A".into(), "M".into()]), false),
+        ("non-admin-behind-the-hole", "M", CommitContent::Add, false),
+        ("non-admin-behind-the-hole", "M", CommitContent::PathOnlySelfUpdate, true),
+        ("non-admin-last-leaf", "Z", CommitContent::Rename("by-z".into()), false),
+        ("admin-behind-the-hole", "B", CommitContent::Rename("by-b".into()), true),
+    ];
+    for (srole, sname, content, must_accept) in &cases {
+        let s = after_removal(sname);
+        let Ok(ev) = raw_commit(&s, &gid, content, &pk_of, Some(&d_kp), now_ts - 5) else {
+            rep.outcome(&format!("holes-not-buildable:{srole}:{content:?}"));
+            continue;
+        };
+        for rname in ["A", "B", "M", "Z"] {
+            if rname == *sname {
+                continue;
+            }
+            let r = after_removal(rname);
+            let Some(before) = view(&r, &gid) else { continue };
+            let rk = result_kind(&r.process(&ev));
+            let Some(after) = view(&r, &gid) else { continue };
+            let accepted = rk == "Commit" && after.epoch > before.epoch;
+            rep.case(&format!("holes|{backend:?}|{srole}|{content:?}|{rname}|{rk}"));
+            rep.evaluations += 1;
+            if accepted && !must_accept {
+                rep.finding(format!("C05|unauthorised-commit-accepted|sender={srole}|content={content:?}|tree-with-an-empty-leaf"), format!("after X (leaf 1) was removed, {sname} sends {content:?}; receiver {rname} answers {rk}"), json!({"receiver": rname, "backend": format!("{backend:?}")}));
+            }
+            if !accepted && *must_accept {
+                rep.finding(format!("C05|authorised-commit-refused|sender={srole}|content={content:?}|tree-with-an-empty-leaf"), format!("after X (leaf 1) was removed, {sname} sends {content:?}; receiver {rname} answers {rk}"), json!({"receiver": rname, "backend": format!("{backend:?}")}));
+            }
+            if !accepted && before.full != after.full {
+                rep.finding(format!("C05|refused-commit-changed-state|sender={srole}|content={content:?}|tree-with-an-empty-leaf"), format!("{sname} sends {content:?}; receiver {rname} refuses ({rk}) but its state changed"), json!({"receiver": rname}));
+            }
+        }
+    }
 }
